@@ -12,12 +12,13 @@ use crate::scenario::*;
 
 pub fn generate(rng: &mut Rng, tier: Tier, stats: &mut GenStats) -> Scenario {
     let mut g = Gen::new(rng, tier);
-    let links = if g.rng.chance(2, 10) { LinkMode::Safe } else { LinkMode::None };
+    let links = if g.rng.chance(3, 10) { LinkMode::Safe } else { LinkMode::None };
+    g.link_base_pct = 25;
     let tree = g.tree(links);
     let model = Model::from_tree(&tree).unwrap();
     let cwd = g.pick_dir(&model, 40);
     let has_links = tree.iter().any(|n| matches!(n.kind, Kind::Link { .. }));
-    let base = g.pick_dir(&model, 45);
+    let base = g.pick_base(&model, 45, true);
     let link = if has_links && g.rng.chance(1, 2) { Link::ReadTarget } else { Link::ReadFile };
     let source = underlying_source(&mut g, &model, &base, stats);
     let space_base = match &source {
@@ -34,6 +35,16 @@ pub fn generate(rng: &mut Rng, tier: Tier, stats: &mut GenStats) -> Scenario {
         1 => Depth::Min(g.rng.range(1, deepest)),
         2 => Depth::MinMax(g.rng.range(1, deepest), g.rng.range(1, deepest + 1)),
         _ => Depth::Unbounded,
+    };
+    // A walk root reached through a link of the glob's prefix is followed whatever the policy; the
+    // model is then told where the walk starts by the first item fed, which must be the walk root:
+    // no minimum depth in that case.
+    let depth = match &source {
+        Source::Glob { expr, rooted } if link == Link::ReadFile && prefix_touches_link(&model, &base, expr, *rooted) => match depth {
+            Depth::Min(_) | Depth::MinMax(..) => Depth::Unbounded,
+            d => d,
+        },
+        _ => depth,
     };
     let walker = Walker {
         source,
@@ -174,7 +185,16 @@ pub fn check(sc: &Scenario, env: &mut Env) -> Result<Outcome, HarnessError> {
                     );
                 }
             }
-            let visits = model.traverse(&space.start, w.link, None);
+            // (the walk starts at the first item fed when the prefix of the glob passes through a
+            // link, see `generate`; otherwise at or below the start of the space)
+            let through_link = matches!(&w.source, Source::Glob { expr, rooted } if w.link == Link::ReadFile && prefix_touches_link(&model, &w.base, expr, *rooted));
+            let start = if through_link {
+                n.taps.iter().find(|t| t.pos == 0).and_then(|t| t.wp.clone()).unwrap_or_else(|| space.start.clone())
+            }
+            else {
+                space.start.clone()
+            };
+            let visits = model.traverse(&start, w.link, None);
             partial_clause("C03", "prune-sound", wi, &n, &visits, &mut out);
         }
         let discarded = matches.iter().filter(|m| **m).count();
